@@ -173,6 +173,13 @@ def entry_points(rng):
         else:
             post = filter_posterior(k)
         return lambda seed: np.asarray(post.sample_initial_parameters(n_samples=3, seed=seed))
+    def init_special(k):
+        case = c18.gen_case(random.Random(2000 + k), 5)          # only pooled / heterogeneous dimensions
+        post = c18.build(case)[0]
+        return lambda seed: np.asarray(post.sample_initial_parameters(n_samples=3, seed=seed))
+    k = rng.randrange(1000)
+    eps.append(('sample_initial_parameters hierarchical without individual-level parameters #%d' % k,
+                lambda k=k: init_special(k), False))
     for kind in ('individual', 'hierarchical', 'hierarchical', 'filter', 'filter'):
         k = rng.randrange(1000)
         eps.append(('sample_initial_parameters %s #%d' % (kind, k), lambda kind=kind, k=k: init_params(kind, k), False))
